@@ -15,10 +15,11 @@
      K02_closer_overlaps_opener  valid_simple requires the closer not to occur on the opener line       (D26)
      K02_py_multiline_docstring / K02_py_triple_in_string: triple-quote syntaxes (opener = closer made of
                                  quote characters) are outside block_head_ok (needle_is_multiquote = false) (D4, D27)
-   Not covered by these theorems (correspondence run only, see DESIGN): nesting block comments (Rust, Swift)
-   and Lua long brackets -- the block theorems require ml_nest = false and a Static or line-start opener. *)
+   Nesting block comments (Rust, Swift), Lua long brackets and one-line triple-quote blocks have their own
+   line theorems below (C02_nested_*, C02_lua_block_open, C02_selfclosing_block_line); they are proved at the
+   level of lines / line lists and are not (yet) constructors of the whole-program grammar. *)
 From Coq Require Import NArith List Bool.
-From SG Require Import Counter.Lexer Counter.Sloc Counter.Proofs_C04 Counter.Truth Counter.Proofs_C02 Gen.Gen_Registry.
+From SG Require Import Counter.Lexer Counter.Sloc Counter.Proofs_C04 Counter.Truth Counter.Proofs_C02 Counter.ProofsNest Gen.Gen_Registry.
 Import ListNotations.
 Open Scope N_scope.
 
@@ -113,6 +114,79 @@ Theorem C02_directive_in_code_inert : forall (sy : syntax) (l : str),
 Proof. intros sy l H. split; [exact (ignore_file_needs_comment sy l H)|exact (is_directive_not_comment sy (trim l) H)]. Qed.
 Print Assumptions C02_directive_in_code_inert.
 
+(* ---- nesting block comments (where the language nests) ---- *)
+(* inside a nesting block the depth moves by (openers - closers) of the line; the line is a comment *)
+Theorem C02_nested_inner_line : forall (sy : syntax) (c : mlc) (d : N) (ts : list ntok),
+  nest_markers_ok c -> 1 <= d ->
+  forallb (ntext_ok (ml_start c) (ml_end c)) ts = true ->
+  quote_free (render_ntoks (ml_start c) (ml_end c) ts) = true ->
+  is_directive sy (trim (render_ntoks (ml_start c) (ml_end c) ts)) = false ->
+  closes ts <= d + opens ts ->
+  classify_line sy (in_nest c d) (render_ntoks (ml_start c) (ml_end c) ts)
+  = (Comment, nest_state c (d + opens ts - closes ts)).
+Proof. exact nested_inner_line. Qed.
+Print Assumptions C02_nested_inner_line.
+
+(* a nesting block comment ends exactly when its depth returns to zero, whatever the nesting *)
+Theorem C02_nested_block_ends_at_matching_closer : forall (sy : syntax) (c : mlc) (lines : list (list ntok)) (d : N),
+  nest_markers_ok c -> (lines <> [] -> 1 <= d) -> nested_ok d lines ->
+  Forall (fun ts => forallb (ntext_ok (ml_start c) (ml_end c)) ts = true /\
+                    quote_free (render_ntoks (ml_start c) (ml_end c) ts) = true /\
+                    is_directive sy (trim (render_ntoks (ml_start c) (ml_end c) ts)) = false) lines ->
+  classes sy (map (render_ntoks (ml_start c) (ml_end c)) lines) (nest_state c d) = repeat Comment (length lines) /\
+  state_after sy (map (render_ntoks (ml_start c) (ml_end c)) lines) (nest_state c d) = st0.
+Proof. exact nested_block_rest. Qed.
+Print Assumptions C02_nested_block_ends_at_matching_closer.
+
+(* the opener line of a nesting block *)
+Theorem C02_nested_open_line : forall (sy : syntax) (st : lstate) (ws : str) (ts : list ntok) (pre : list mlc) (c : mlc) (post : list mlc),
+  wf_syntax sy = true -> idle st ->
+  Forall (fun x => is_ws x = true) ws ->
+  multi sy = pre ++ c :: post ->
+  (forall c', In c' pre -> opener_at_c (render_ntoks (ml_start c) (ml_end c) (NOpen :: ts)) c' = false) ->
+  ml_nest c = true -> ml_linestart c = false -> ml_kind c = Static -> nest_markers_ok c ->
+  head_is (ml_end c) (hd 0 (ml_end c)) = true -> is_ws (hd 0 (ml_end c)) = false ->
+  raw_head_here (has_rawstring sy) (render_ntoks (ml_start c) (ml_end c) (NOpen :: ts)) = false ->
+  needle_is_multiquote (ml_start c) = false ->
+  forallb (ntext_ok (ml_start c) (ml_end c)) ts = true ->
+  quote_free (render_ntoks (ml_start c) (ml_end c) (NOpen :: ts)) = true ->
+  is_directive sy (trim (ws ++ render_ntoks (ml_start c) (ml_end c) (NOpen :: ts))) = false ->
+  closes ts <= 1 + opens ts ->
+  classify_line sy st (ws ++ render_ntoks (ml_start c) (ml_end c) (NOpen :: ts))
+  = (Comment, nest_state c (1 + opens ts - closes ts)).
+Proof. exact nested_open_line. Qed.
+Print Assumptions C02_nested_open_line.
+
+(* ---- Lua long brackets: the opener of level n selects the closer of level n ---- *)
+Theorem C02_lua_block_open : forall (sy : syntax) (st : lstate) (ws t : str) (pre : list mlc) (c : mlc) (post : list mlc) (lvl : nat),
+  wf_syntax sy = true -> idle st ->
+  Forall (fun x => is_ws x = true) ws -> trim_start t = t ->
+  multi sy = pre ++ c :: post ->
+  (forall c', In c' pre -> opener_at_c t c' = false) ->
+  ml_nest c = false -> ml_linestart c = false -> ml_kind c = LuaLong ->
+  match_lua t true = Some lvl ->
+  is_directive sy (trim (ws ++ t)) = false ->
+  let em := match lvl with O => ml_end c | _ => lua_end lvl end in
+  contains em (ws ++ t) = false ->
+  classify_line sy st (ws ++ t) = (Comment, in_block c em).
+Proof. exact lua_block_open_line. Qed.
+Print Assumptions C02_lua_block_open.
+
+(* ---- triple-quote blocks (opener = closer): a one-line block is a comment and leaves the state alone ---- *)
+Theorem C02_selfclosing_block_line : forall (sy : syntax) (st : lstate) (ws t : str) (pre : list mlc) (c : mlc) (post : list mlc),
+  wf_syntax sy = true -> idle st ->
+  Forall (fun x => is_ws x = true) ws -> trim_start t = t ->
+  multi sy = pre ++ c :: post ->
+  (forall c', In c' pre -> opener_at_c t c' = false) ->
+  ml_nest c = false -> ml_start c <> [] -> ml_end c = ml_start c ->
+  ml_linestart c = false -> ml_kind c = Static ->
+  prefixb (ml_start c) t = true ->
+  raw_head_here (has_rawstring sy) t = false ->
+  is_directive sy (trim (ws ++ t)) = false ->
+  classify_line sy st (ws ++ t) = (Comment, st).
+Proof. exact selfclosing_block_line. Qed.
+Print Assumptions C02_selfclosing_block_line.
+
 (* every built-in syntax (table regenerated from the crate on every run) has well-formed markers *)
 Theorem C02_builtins_wf : forallb wf_syntax all_builtin = true.
 Proof. vm_compute. reflexivity. Qed.
@@ -177,3 +251,17 @@ Proof.
     try (repeat constructor; vm_compute; reflexivity).
 Qed.
 Print Assumptions C02_nonvacuous.
+
+(* non-vacuity of the nesting theorems: Rust-like block with nested opener, three lines:
+   open-open-text / text-close / close  *)
+Definition rblock : mlc := {| ml_start := [47;42]; ml_end := [42;47]; ml_nest := true; ml_linestart := false; ml_kind := Static |}.
+Example C02_nested_nonvacuous :
+  nest_markers_ok rblock /\
+  nested_ok 2 [[NText [97;32]; NClose]; [NClose]] /\
+  classes {| single := [[47;47]]; multi := [rblock] |}
+    [ [47;42;32;47;42;32;120]; [97;32;42;47]; [42;47]; [105;110;116] ] st0 = [Comment; Comment; Comment; Code].
+Proof.
+  split; [repeat split; discriminate|]. split; [|vm_compute; reflexivity].
+  cbn. unfold opens, closes. cbn. repeat split; try reflexivity; discriminate.
+Qed.
+Print Assumptions C02_nested_nonvacuous.
